@@ -397,6 +397,21 @@ def t_fold(p):
     raise ValueError(v)
 
 
+def t_fold_versioned(p):
+    """A constant sub-expression whose operator changed its signature between opset versions (Reduce* took `axes` as an
+    attribute up to opset 17 and as an input from 18): folding must evaluate it with the implementation of the MODEL's
+    opset, whatever models were folded earlier in the process."""
+    opset, opn = p["opset"], p["op"]
+    k = np.asarray(p.get("k", [[1.5, -2.0, 0.25], [0.5, 4.0, -1.0]]), np.float32)
+    if opset >= 18:
+        nodes = [_n(opn, ["c", "axes"], ["r"], keepdims=0), _n("Add", ["x", "r"], ["out"])]
+        inits = [_init("c", k), _init("axes", np.array([0], np.int64))]
+    else:
+        nodes = [_n(opn, ["c"], ["r"], axes=[0], keepdims=0), _n("Add", ["x", "r"], ["out"])]
+        inits = [_init("c", k)]
+    return _model(nodes, [_vi("x", F, [k.shape[1]])], [_vi("out", F, [k.shape[1]])], inits, opset=opset, ir_version=8)
+
+
 def t_convert(p):
     """Models for convert_version: the three ops that have adapters + plain ops."""
     v = p["variant"]
@@ -426,6 +441,7 @@ def t_convert(p):
 TEMPLATES = {
     "reshape_reshape": t_reshape_reshape, "flatten": t_flatten, "pad_conv": t_pad_conv, "materialize": t_materialize,
     "layernorm": t_layernorm, "rmsnorm": t_rmsnorm, "basic": t_basic, "fold": t_fold, "convert": t_convert,
+    "fold_versioned": t_fold_versioned,
 }
 
 
@@ -557,6 +573,12 @@ def g_fold(rng):
     return p
 
 
+def g_fold_versioned(rng):
+    n = rng.choice([2, 3, 4])
+    return {"opset": rng.choice([13, 17, 18, 20]), "op": rng.choice(["ReduceMax", "ReduceMin", "ReduceProd", "ReduceMean"]),
+            "k": [[round(rng.uniform(-3, 3), 2) for _ in range(n)] for _ in range(2)]}
+
+
 def g_convert(rng):
     # GroupNormalization-18 is rejected by onnx.checker as deprecated: not used as a target
     v = rng.choice(["gridsample", "dft", "plain"])
@@ -579,8 +601,8 @@ def g_convert(rng):
 # which (template, generator) pairs feed which API
 REWRITE_SOURCES = [("reshape_reshape", g_reshape_reshape), ("flatten", g_flatten), ("pad_conv", g_pad_conv),
                    ("materialize", g_materialize), ("basic", g_basic)]
-OPTIMIZE_SOURCES = REWRITE_SOURCES + [("fold", g_fold), ("layernorm", g_layernorm)]
-FOLD_SOURCES = [("fold", g_fold), ("materialize", g_materialize), ("reshape_reshape", g_reshape_reshape)]
+OPTIMIZE_SOURCES = REWRITE_SOURCES + [("fold", g_fold), ("layernorm", g_layernorm), ("fold_versioned", g_fold_versioned)]
+FOLD_SOURCES = [("fold", g_fold), ("materialize", g_materialize), ("reshape_reshape", g_reshape_reshape), ("fold_versioned", g_fold_versioned)]
 
 
 def model_target(rng, api: str, idx: int):
@@ -659,7 +681,8 @@ def history_op(rng, name: str):
 
 
 GENS = {"reshape_reshape": g_reshape_reshape, "flatten": g_flatten, "pad_conv": g_pad_conv, "materialize": g_materialize,
-        "layernorm": g_layernorm, "rmsnorm": g_rmsnorm, "basic": g_basic, "fold": g_fold, "convert": g_convert}
+        "layernorm": g_layernorm, "rmsnorm": g_rmsnorm, "basic": g_basic, "fold": g_fold, "convert": g_convert,
+        "fold_versioned": g_fold_versioned}
 SETFAIL_FOR = {"reshape_reshape": ["reshape"], "pad_conv": ["pad_nonspatial", "pad_negative", "pad_autopad"], "layernorm": ["ln"],
                "rmsnorm": ["rms"]}
 
@@ -703,6 +726,14 @@ def sibling_history(rng, target):
             m = dict(target)
             m["params"] = dict(g_rmsnorm(rng), et=et, cast_to=ct)
             out.append({"h": hname, "model": m})
+    if t == "fold_versioned":
+        # the same operator folded first in models of every OTHER opset family (attribute form vs input form)
+        out = []
+        for ov in (13, 18, 17, 20):
+            if (ov >= 18) != (target["params"]["opset"] >= 18) or len(out) < 3:
+                m = dict(target)
+                m["params"] = dict(g_fold_versioned(rng), opset=ov, op=target["params"]["op"])
+                out.append({"h": hname, "model": m})
     for c in SETFAIL_FOR.get(t, []):
         out.insert(1, setfail_op(rng, c))
     if t == "reshape_reshape":
